@@ -40,12 +40,13 @@ func slTarget(r *hx.Rng) (t string, normal bool) {
 			n := 1 + r.Intn(hx.Pick(r, []int{3, 12, 60, 200}))
 			b := make([]byte, n)
 			for i := range b {
-				b[i] = "abcdefghijklmnopqrstuvwxyz0189_-. \\\xc3\xa9"[r.Intn(36)]
+				b[i] = "abcdefghijklmnopqrstuvwxyz0189_-. \xc3\xa9"[r.Intn(36)]
+			}
+			if r.Chance(4) { // a backslash: an ordinary character of a POSIX name (finding iso-rr-symlink-backslash)
+				b[r.Intn(n)] = '\\'
+				normal = false
 			}
 			p = string(b)
-		}
-		if strings.Contains(p, "\\") {
-			normal = false
 		}
 		parts = append(parts, p)
 		l += len(p) + 1
